@@ -192,6 +192,15 @@ Theorem c01_terminates_deref : forall env i, deref 1026 env i 0 <> OutOfFuel.
 Proof. exact deref_terminates. Qed.
 Print Assumptions c01_terminates_deref.
 
+(** dereference chains through array subscripts: the subscript is evaluated at the current depth *)
+Theorem c01_no_panic_deref_subscripts : forall fuel env e, aeval fuel env e 0 <> Panic.
+Proof. exact no_panic_aeval. Qed.
+Print Assumptions c01_no_panic_deref_subscripts.
+
+Theorem c01_deref_subscript_cycle_fails : aeval 4000 cycle_env (AElem 0 (AVar 0)) 0 = Fail.
+Proof. exact aeval_subscript_cycle_fails. Qed.
+Print Assumptions c01_deref_subscript_cycle_fails.
+
 (** non-vacuity: the hypotheses of the conditional theorems are satisfiable and the functions do
     produce values *)
 Theorem c01_nonvacuous :
